@@ -97,6 +97,8 @@ func c03AutoSetup(sc c03AutoScenario, s *xsched.Sched) (env *c03AutoEnv) {
 		upd.Profiles = []*agd.Profile{c03Profile(c03Prof1, nil, true, true)}
 	case "detached":
 		upd.Profiles = []*agd.Profile{c03Profile(c03Prof1, []agd.DeviceID{c03Auto1}, false, true)}
+	case "auto-detached":
+		upd.Profiles = []*agd.Profile{c03Profile(c03Prof1, []agd.DeviceID{c03Dev1}, false, true)}
 	case "auto-off":
 		upd.Profiles = []*agd.Profile{c03Profile(c03Prof1, []agd.DeviceID{c03Dev1, c03Auto1}, false, false)}
 	default:
@@ -150,7 +152,7 @@ func c03AutoCheck(env *c03AutoEnv, x *xsched.Exec) (fs []vrt.Finding) {
 	final := env.cfg
 	final.DB = c03AutoFinalDB(env.sc.Variant)
 	seen := map[string]bool{}
-	for _, id := range []string{c03Dev1, "otr-prof1-MyPhone", c03AutoNew, "otr-prof1-NewPhone", c03Dev1} {
+	for _, id := range []string{c03Dev1, c03Auto1, "otr-prof1-MyPhone", c03AutoNew, "otr-prof1-NewPhone", c03Dev1, c03Auto1} {
 		c := c03AutoRequest(final, id)
 		o := env.stack.serveAny(c)
 		c03AutoRunPending()
@@ -189,12 +191,12 @@ func c03AutoRunPending() {
 
 func c03AutoScenarios(thorough bool) (scs []c03AutoScenario) {
 	for _, proto := range []string{"dot", "doh"} {
-		for _, v := range []string{"deleted", "deleted-nodevs", "detached", "auto-off"} {
+		for _, v := range []string{"deleted", "deleted-nodevs", "detached", "auto-detached", "auto-off"} {
 			scs = append(scs, c03AutoScenario{Proto: proto, Variant: v, Tasks: 2})
 		}
 	}
 	if thorough {
-		for _, v := range []string{"deleted", "deleted-nodevs", "detached", "auto-off"} {
+		for _, v := range []string{"deleted", "deleted-nodevs", "detached", "auto-detached", "auto-off"} {
 			scs = append(scs, c03AutoScenario{Proto: "dot", Variant: v, Tasks: 3})
 		}
 	}
